@@ -2139,3 +2139,40 @@ fn main() {
         }
     }
 }
+
+/// Verification hooks (compiled only with `--cfg rustfmt_verif`).
+#[cfg(rustfmt_verif)]
+pub(crate) mod verif {
+    use super::*;
+
+    fn ck(k: CodeCharKind) -> u8 {
+        match k {
+            CodeCharKind::Normal => 0,
+            CodeCharKind::Comment => 1,
+        }
+    }
+
+    pub(crate) fn ungrouped(s: &str) -> Vec<(u8, usize, String)> {
+        UngroupedCommentCodeSlices::new(s)
+            .map(|(k, off, sub)| (ck(k), off, sub.to_owned()))
+            .collect()
+    }
+
+    pub(crate) fn slices(s: &str) -> Vec<(u8, usize, String)> {
+        CommentCodeSlices::new(s)
+            .map(|(k, off, sub)| (ck(k), off, sub.to_owned()))
+            .collect()
+    }
+
+    pub(crate) fn changed(orig: &str, new: &str) -> bool {
+        changed_comment_content(orig, new)
+    }
+
+    /// The stream `changed_comment_content` compares (same expression as its closure).
+    pub(crate) fn payload(code: &str) -> String {
+        UngroupedCommentCodeSlices::new(code)
+            .filter(|(kind, _, _)| *kind == CodeCharKind::Comment)
+            .flat_map(|(_, _, s)| CommentReducer::new(s))
+            .collect()
+    }
+}
